@@ -360,19 +360,47 @@ class ModelCompiler:
                             extracted_model.cells[column] = copy.deepcopy(
                                 model.cells[column])
 
-        terms_to_copy = []
-        for addr, cell in extracted_model.cells.items():
-            if cell.formula is not None:
-                for term in cell.formula.terms:
-                    if (term in extracted_model.cells
-                            and cell.formula != model.cells[addr].formula):
-                        cell.formula = copy.deepcopy(model.cells[addr].formula)
-
-                    elif term not in extracted_model.cells:
-                        terms_to_copy.append(term)
-
-        for term in terms_to_copy:
-            extracted_model.cells[term] = copy.deepcopy(model.cells[term])
+        # Copy everything the cells copied so far depend on, directly or
+        # through other formulas, ranges and defined names.
+        todo = list(extracted_model.cells)
+        for name in list(extracted_model.defined_names):
+            todo.append(name)
+        while todo:
+            item = todo.pop()
+            if item in extracted_model.defined_names:
+                terms = [item]
+            elif extracted_model.cells[item].formula is not None:
+                terms = extracted_model.cells[item].formula.terms
+            else:
+                continue
+            for term in terms:
+                addresses = [term]
+                name = term.split('!')[-1]
+                if name in model.defined_names:
+                    defn = model.defined_names[name]
+                    if name not in extracted_model.defined_names:
+                        extracted_model.defined_names[name] = copy.deepcopy(
+                            defn)
+                    if isinstance(defn, xltypes.XLCell):
+                        addresses = [defn.address]
+                    elif isinstance(defn, xltypes.XLRange):
+                        addresses = [a for row in defn.cells for a in row]
+                        for address, rng in model.ranges.items():
+                            if (isinstance(rng, xltypes.XLRange)
+                                    and rng.cells == defn.cells):
+                                extracted_model.ranges[address] = \
+                                    copy.deepcopy(rng)
+                elif term in model.ranges:
+                    extracted_model.ranges[term] = copy.deepcopy(
+                        model.ranges[term])
+                    addresses = [
+                        a for row in model.ranges[term].cells for a in row]
+                for address in addresses:
+                    if (address in model.cells
+                            and address not in extracted_model.cells):
+                        extracted_model.cells[address] = copy.deepcopy(
+                            model.cells[address])
+                        todo.append(address)
 
         extracted_model.build_code()
 
